@@ -22,6 +22,7 @@ ERASED = ("ptr_map", "cast", "cast_mut", "cast_const")
 def skeleton(facts, b, depth=0):
     """multiset of (callee, argument shapes) of a function and the closures it creates, with the tag unmasking erased"""
     out = []
+    fn_items = []
     eb = ExprBuilder(b, facts, inline=False)
     for bi, t in b.calls():
         if b.blocks[bi]["cleanup"]:
@@ -55,6 +56,12 @@ def skeleton(facts, b, depth=0):
                 shapes.append("p%d" % e[1])
             elif isinstance(e, tuple) and e[0] == "closure":
                 shapes.append("closure")
+            elif isinstance(e, tuple) and e[0] == "fn":
+                # a named function handed over where the sibling hands over a closure: same role, and its calls are compared like a closure's
+                shapes.append("closure")
+                fb = (facts.by_id.get(e[1]) or [None])[0]
+                if fb is not None and fb.did != b.did and depth < 3:
+                    fn_items.append(fb)
             elif isinstance(e, tuple) and e[0] == "const":
                 shapes.append("c%s" % e[1])
             else:
@@ -81,6 +88,8 @@ def skeleton(facts, b, depth=0):
     for c in facts.children.get(b.did, []):
         if c.kind == "closure":
             out.extend(("closure:" + x[0],) + x[1:] for x in skeleton(facts, c, depth + 1))
+    for fb in fn_items:
+        out.extend(("closure:" + x[0].replace("closure:", ""),) + x[1:] for x in skeleton(facts, fb, depth + 1))
     return sorted(out)
 
 
